@@ -256,3 +256,71 @@ SUMMARIES.update({
     "Circuit.startpoints": s_startpoints0,
     "Circuit.endpoints": s_endpoints0,
 })
+
+
+# ---------------------------------------------------------------- uid / add
+def s_uid(ex, st, recv, args, kw, e):
+    """uid(n) (blocked=None variant).  Relational contract proved on the body (task layer1/Circuit.uid):
+         result is not a node, and result == n when n is not a node.
+    At call sites the result is the deterministic but otherwise unknown value  uid_of(N, n)  with exactly these facts."""
+    if len(args) > 1 or kw:
+        raise Unsupported("uid(blocked=...) variant")
+    g = st.g(recv)
+    n = ex.name_term(args[0])
+    f = z3.Function("uid_of", g.N.sort(), ex.ctx.Name, ex.ctx.Name)
+    r = f(g.N, n)
+    st.pc.append(z3.Not(g.node(r)))
+    st.pc.append(z3.Implies(z3.Not(g.node(n)), r == n))
+    return NameV(r)
+
+
+def s_add(ex, st, recv, args, kw, e):
+    """add(n, node_type, fanin=None, fanout=None, output=False, uid=False) with add_connected_nodes=False and
+    allow_redefinition=False (the two flag combinations C07 names).  All-or-nothing: a rejected call leaves the
+    circuit as it was."""
+    from pyvc.exec import _Split
+    ctx = ex.ctx
+    names = ["n", "node_type", "fanin", "fanout", "output", "add_connected_nodes", "allow_redefinition", "uid"]
+    a = dict(zip(names, args))
+    a.update(kw)
+    for flag in ("add_connected_nodes", "allow_redefinition"):
+        if a.get(flag, False) is not False:
+            raise Unsupported(f"add({flag}=True) variant is not under this contract")
+    uid = a.get("uid", False)
+    if not isinstance(uid, bool):
+        raise Unsupported("symbolic uid flag")
+    g0 = st.g(recv)
+    n = a["n"]
+    if uid:
+        n = s_uid(ex, st, recv, [n], {}, e)
+    nt = ex.name_term(n)
+    if not uid:
+        ex.split_raise(st, g0.node(nt), "ValueError")
+    def norm(v):
+        if v is None or v is NONE or isinstance(v, type(NONE)):
+            return Coll.explicit([])
+        return _names(ex, v)
+    fanin, fanout = norm(a.get("fanin")), norm(a.get("fanout"))
+    t = ex.type_term(a["node_type"])
+    tin = lambda L: z3.Or([t == ctx.tval[k] for k in L])
+    ex.split_raise(st, z3.Not(tin([k for k in ctx.tval if not k.startswith("<")])), "ValueError")
+    ex.split_raise(st, z3.And(z3.Not(_at_most_one(ctx, fanin)), tin(["buf", "not"])), "ValueError")
+    ex.split_raise(st, z3.And(ex.truthy(fanin), tin(["0", "1", "x", "input"])), "ValueError")
+    ex.split_raise(st, z3.Or(ex.str_empty(nt), ex.starts_digit(nt)), "ValueError")
+    out = ex.truthy(a.get("output", False))
+    g1 = g0.copy(N=z3.Store(g0.N, nt, True), ty=z3.Store(g0.ty, nt, t), hasty=z3.Store(g0.hasty, nt, True),
+                 out=z3.Store(g0.out, nt, out), hasout=z3.Store(g0.hasout, nt, True))
+    st.set_g(recv, g1)
+    try:
+        s_connect(ex, st, recv, [NameV(nt), fanout], {}, e)
+        s_connect(ex, st, recv, [fanin, NameV(nt)], {}, e)
+    except _Split as sp:
+        # rollback: the new node (and any edge already made) is removed again
+        cur = sp.st.g(recv)
+        FI = models.define_fi(ex, sp.st, lambda u, v: z3.And(cur.edge(u, v), u != nt, v != nt))
+        sp.st.set_g(recv, cur.copy(N=z3.Store(cur.N, nt, False), FI=FI, hasty=z3.Store(cur.hasty, nt, False), hasout=z3.Store(cur.hasout, nt, False)))
+        raise
+    return NameV(nt)
+
+
+SUMMARIES.update({"Circuit.uid": s_uid, "Circuit.add": s_add})
